@@ -440,8 +440,17 @@ func checkC06(r *Result) []Violation {
 						tk = "true"
 					}
 				}
+				// ... or did the message go to a session that is no member by the model but took its connection over from
+				// another one? (the old connection's SUBSCRIBE may have been processed after the takeover: a ghost member
+				// under the client id, which the group can pick instead of a real one)
+				ghost := "false"
+				for id, prs := range copies {
+					if s := m.Sess[id]; len(prs) > 0 && !j.May[id] && s != nil && strings.Contains(s.Origin, "takeover") {
+						ghost = "true"
+					}
+				}
 				out = append(out, viol("C06", "no-member-chosen", fmt.Sprintf("publish op %d %s: no member of share group %q (%v) received it", oi, op.Pkt, g, members), w.EndSeq,
-					"group_filters", strings.Join(fl, ","), "member_taken_over", tk))
+					"group_filters", strings.Join(fl, ","), "member_taken_over", tk, "takeover_ghost", ghost))
 			}
 		}
 	})
